@@ -89,39 +89,46 @@ theorem range_fn_bytes_over_time (grp : List Sample) (d : Nat) :
     group of `unwrap_1`, the value column `UnwrapFunctionPlanner` writes equals the range function of the direct
     reading on the (timestamp, value) pairs of that group. -/
 theorem range_fn_unwrap (o : Oracles) (env : Env) (rows : List Row) (first : Row) (grp : List (Int × Rat))
-    (fn : UnwrapFn) (d : Nat) (h : UnwrapRows rows grp) (hne : grp ≠ []) (hms : 1000000 ∣ d) (hd : 0 < d)
-    (hfn : fn ≠ .stdvarOT ∧ fn ≠ .stddevOT) :
-    evalAgg o env rows first (.col (unwrapValue fn (secLit d)) "value") = ((unwrapVal fn d grp).map Val.rat).getD .null :=
-  LogQL.range_fn_unwrap o env rows first grp fn d h hne hms hd hfn
+    (fn : UnwrapFn) (d : Nat) (h : UnwrapRows rows grp) (hne : grp ≠ []) (hms : 1000000 ∣ d) (hd : 0 < d) :
+    evalAgg o env rows first (.col (unwrapValue fn (secLit d)) "value") = ((unwrapVal o fn d grp).map Val.rat).getD .null :=
+  LogQL.range_fn_unwrap o env rows first grp fn d h hne hms hd
 
-theorem range_fn_sum_over_time (grp : List (Int × Rat)) (p : Int × Rat) (d : Nat) :
-    unwrapVal .sumOT d (p :: grp) = some (ratSumL ((p :: grp).map (·.2))) := rfl
-theorem range_fn_avg_over_time (grp : List (Int × Rat)) (p : Int × Rat) (d : Nat) :
-    unwrapVal .avgOT d (p :: grp) = some (ratSumL ((p :: grp).map (·.2)) / (((p :: grp).map (·.2)).length : Int)) := rfl
-theorem range_fn_unwrapped_rate (grp : List (Int × Rat)) (p : Int × Rat) (d : Nat) :
-    unwrapVal .rate d (p :: grp) = some (ratSumL ((p :: grp).map (·.2)) / secondsOf d) := rfl
+/-- `stdvar_over_time` is the population variance of the group's values (the mean of the squared deviations from the
+    mean: exact rational arithmetic), `stddev_over_time` the square root of it — `o.sqrt`, the one uninterpreted function
+    `Sql.SemAgg` uses for `stddevPop` as well (a square root is not a rational function; nothing is assumed of it). -/
+theorem range_fn_stdvar_over_time (o : Oracles) (grp : List (Int × Rat)) (p : Int × Rat) (d : Nat) :
+    unwrapVal o .stdvarOT d (p :: grp) = some (varPopRat ((p :: grp).map (·.2))) := rfl
+theorem range_fn_stddev_over_time (o : Oracles) (grp : List (Int × Rat)) (p : Int × Rat) (d : Nat) :
+    unwrapVal o .stddevOT d (p :: grp) = some (o.sqrt (varPopRat ((p :: grp).map (·.2)))) := rfl
+
+theorem range_fn_sum_over_time (o : Oracles) (grp : List (Int × Rat)) (p : Int × Rat) (d : Nat) :
+    unwrapVal o .sumOT d (p :: grp) = some (ratSumL ((p :: grp).map (·.2))) := rfl
+theorem range_fn_avg_over_time (o : Oracles) (grp : List (Int × Rat)) (p : Int × Rat) (d : Nat) :
+    unwrapVal o .avgOT d (p :: grp) = some (ratSumL ((p :: grp).map (·.2)) / (((p :: grp).map (·.2)).length : Int)) := rfl
+theorem range_fn_unwrapped_rate (o : Oracles) (grp : List (Int × Rat)) (p : Int × Rat) (d : Nat) :
+    unwrapVal o .rate d (p :: grp) = some (ratSumL ((p :: grp).map (·.2)) / secondsOf d) := rfl
 
 /-- `min_over_time` is a value of the group and no value of the group is smaller (no min/max swap) -/
-theorem range_fn_min_over_time (grp : List (Int × Rat)) (p : Int × Rat) (d : Nat) :
-    ∃ m, unwrapVal .minOT d (p :: grp) = some m ∧ m ∈ (p :: grp).map (·.2) ∧ ∀ x ∈ (p :: grp).map (·.2), m ≤ x := by
+theorem range_fn_min_over_time (o : Oracles) (grp : List (Int × Rat)) (p : Int × Rat) (d : Nat) :
+    ∃ m, unwrapVal o .minOT d (p :: grp) = some m ∧ m ∈ (p :: grp).map (·.2) ∧ ∀ x ∈ (p :: grp).map (·.2), m ≤ x := by
   refine ⟨_, rfl, ?_⟩
   simpa using foldl_min_spec p.2 (grp.map (·.2))
 
 /-- `max_over_time` is a value of the group and no value of the group is greater -/
-theorem range_fn_max_over_time (grp : List (Int × Rat)) (p : Int × Rat) (d : Nat) :
-    ∃ m, unwrapVal .maxOT d (p :: grp) = some m ∧ m ∈ (p :: grp).map (·.2) ∧ ∀ x ∈ (p :: grp).map (·.2), x ≤ m := by
+theorem range_fn_max_over_time (o : Oracles) (grp : List (Int × Rat)) (p : Int × Rat) (d : Nat) :
+    ∃ m, unwrapVal o .maxOT d (p :: grp) = some m ∧ m ∈ (p :: grp).map (·.2) ∧ ∀ x ∈ (p :: grp).map (·.2), x ≤ m := by
   refine ⟨_, rfl, ?_⟩
   simpa using foldl_max_spec p.2 (grp.map (·.2))
 
 /-- `first_over_time` is the value of an entry of the group whose timestamp no entry of the group precedes -/
-theorem range_fn_first_over_time (grp : List (Int × Rat)) (d : Nat) (v : Rat) (h : unwrapVal .firstOT d grp = some v) :
+theorem range_fn_first_over_time (o : Oracles) (grp : List (Int × Rat)) (d : Nat) (v : Rat) (h : unwrapVal o .firstOT d grp = some v) :
     ∃ t, (t, v) ∈ grp ∧ ∀ p ∈ grp, t ≤ p.1 := by
   cases grp with
   | nil => simp [unwrapVal] at h
   | cons p ps => exact firstBy_spec (p :: ps) v (by simpa [unwrapVal] using h)
 
 /-- `last_over_time` is the value of an entry of the group whose timestamp no entry of the group follows -/
-theorem range_fn_last_over_time (grp : List (Int × Rat)) (d : Nat) (v : Rat) (h : unwrapVal .lastOT d grp = some v) :
+theorem range_fn_last_over_time (o : Oracles) (grp : List (Int × Rat)) (d : Nat) (v : Rat) (h : unwrapVal o .lastOT d grp = some v) :
     ∃ t, (t, v) ∈ grp ∧ ∀ p ∈ grp, p.1 ≤ t := by
   cases grp with
   | nil => simp [unwrapVal] at h
@@ -129,12 +136,17 @@ theorem range_fn_last_over_time (grp : List (Int × Rat)) (d : Nat) (v : Rat) (h
 
 /-! ## vector aggregation, by / without -/
 
-/-- **vector_agg (sum, min, max, avg, count).** Over the rows of one group of `lra_main`, the value column
+/-- **vector_agg (sum, min, max, avg, count, stdvar, stddev).** Over the rows of one group of `lra_main`, the value column
     `AggOpPlanner` writes, read as a number, equals the aggregate of the direct reading over the group's values. -/
 theorem vector_agg (o : Oracles) (env : Env) (rows : List Row) (first : Row) (vs : List Rat) (fn : AggFn)
-    (h : AggRows rows vs) (hne : vs ≠ []) (hfn : fn ≠ .stddev ∧ fn ≠ .stdvar) :
-    (evalAgg o env rows first (.col (aggValue fn) "value")).toRat? = aggVal fn vs :=
-  vector_agg_value o env rows first vs fn h hne hfn
+    (h : AggRows rows vs) (hne : vs ≠ []) :
+    (evalAgg o env rows first (.col (aggValue fn) "value")).toRat? = aggVal o fn vs :=
+  vector_agg_value o env rows first vs fn h hne
+
+/-- `stdvar` = population variance of the group's values, `stddev` = `o.sqrt` of it -/
+theorem vector_agg_stdvar (o : Oracles) (v : Rat) (vs : List Rat) : aggVal o .stdvar (v :: vs) = some (varPopRat (v :: vs)) := rfl
+theorem vector_agg_stddev (o : Oracles) (v : Rat) (vs : List Rat) :
+    aggVal o .stddev (v :: vs) = some (o.sqrt (varPopRat (v :: vs))) := rfl
 
 /-- one output series per (grouped identity, timestamp): `AggOpPlanner`'s SELECT returns exactly one row for every
     distinct (fingerprint, timestamp) of its input. -/
@@ -334,11 +346,10 @@ theorem plan_metric_correct_range (o : Oracles) (c : MCtx) (hn : c.namesOk) (d :
     timestamp) aggregated by the written operator, both comparisons applied where written. -/
 theorem plan_metric_correct_agg (o : Oracles) (c : MCtx) (hn : c.namesOk) (d : LokiDb) (a : VecAgg) (fn : RangeFn)
     (g : Grouping) (hk : a.inner.kind = .lra fn) (hg : chosenGrouping a.byPrefix a.bySuffix = some g)
-    (hfn : a.fn ≠ .stddev ∧ a.fn ≠ .stdvar)
     (hm : a.inner.sel.matchers.length ≤ 63) (hms : 1000000 ∣ a.inner.durNs) (hd : 0 < a.inner.durNs)
     (hs : takesShortcut (.agg a) = false) (hstep : c.stepNs ≤ (a.inner.durNs : Int)) :
     (evalSelA o (d.toDbM c) (planMetric c (.agg a))).map normRow = evalMetric o c d (.agg a) :=
-  planMetric_agg_lra o c hn d a fn g hk hg hfn hm hms hd hs hstep
+  planMetric_agg_lra o c hn d a fn g hk hg hm hms hd hs hstep
 
 /-- **plan_metric_correct on the samples path, every query shape.** `q` is any metric query whose range aggregation is
     rate / count_over_time / bytes_rate / bytes_over_time and does not take the metrics_15s shortcut: the range
@@ -468,7 +479,8 @@ example : supported (.topk ⟨true, 2, .agg ⟨.sum, some ⟨true, ["a"]⟩, ⟨
 example : supported (.agg ⟨.count, none, ⟨.lra .bytesOverTime, ⟨[], []⟩, 7000000000, none, none, none⟩, some ⟨false, ["x"]⟩, none⟩) = true := by decide
 example : supported (.agg ⟨.sum, none, ⟨.lra .rate, ⟨[], []⟩, 5000000000, none, none, none⟩, none, none⟩) = false := by decide
 example : supportedU (.agg ⟨.max, some ⟨true, ["a"]⟩, ⟨.unwrap .firstOT "x", ⟨[], []⟩, 10000000000, none, some ⟨false, ["b"]⟩, none⟩, none, none⟩) = true := by decide
-example : supportedU (.range ⟨.unwrap .stddevOT "x", ⟨[], []⟩, 10000000000, none, none, none⟩) = false := by decide
+example : supportedU (.range ⟨.unwrap .stddevOT "x", ⟨[], []⟩, 10000000000, none, none, none⟩) = true := by decide
+example : supported (.agg ⟨.stddev, some ⟨true, ["a"]⟩, ⟨.lra .rate, ⟨[], []⟩, 5000000000, none, none, none⟩, none, none⟩) = true := by decide
 example (c : Ctx) : sortBy (tsLe c) ([] : List Sample) = [] := rfl
 example (o : Oracles) (q : MetricQuery) : ShortcutOk o ⟨[], [], []⟩ q := ⟨by simp, by simp⟩
 example (lo hi : Int) : SameInside ⟨[], [], [⟨1, lo - 1, [], 1⟩]⟩ ⟨[], [], []⟩ lo hi := by
